@@ -102,6 +102,18 @@ func (p *Parser) Parse(source string) (Node, error) {
 		return nil, fmt.Errorf("parsing error: %w", err)
 	}
 
+	// parseOuterTemplate hands control back when it meets the closing or middle tag
+	// of a block construct; at the top level nothing is open, so such a tag is an
+	// error (silently dropping the rest of the template is not an option)
+	if p.tokenIndex < len(p.tokens) && p.tokens[p.tokenIndex].Type != TOKEN_EOF {
+		tok := p.tokens[p.tokenIndex]
+		name := tok.Value
+		if p.tokenIndex+1 < len(p.tokens) && p.tokens[p.tokenIndex+1].Type == TOKEN_NAME {
+			name = p.tokens[p.tokenIndex+1].Value
+		}
+		return nil, fmt.Errorf("parsing error: unexpected '%s' tag at line %d: no block is open", name, tok.Line)
+	}
+
 	return NewRootNode(nodes, 1), nil
 }
 
